@@ -125,6 +125,10 @@ fn run_history(start: &Package, start_last: Last, hist: &[Op], keys: &[Key], key
     let mut last = start_last;
     let mut out = Vec::new();
     let mut states = 0;
+    // the starting package itself is a state: none of the harness's keys signed it
+    for (k, w) in check_state(&pkg, last, keys, key_ids, sub.map(|s| &s.2), &start_hp, "start") {
+        out.push((k, w, 0));
+    }
     for (step, op) in hist.iter().enumerate() {
         let after = match op {
             Op::Sign(_) => "sign",
@@ -315,6 +319,12 @@ fn run(ctx: &Ctx, rep: &Report) {
             for h in &with_sub {
                 jobs.push((s, h.clone()));
             }
+        }
+    }
+    // every start (the foreign packages in particular) with each single operation and a few pairs
+    for s in 0..starts.len() {
+        for h in [vec![Op::Clear], vec![Op::Reparse], vec![Op::FailSign], vec![Op::Sign(2)], vec![Op::Clear, Op::Reparse], vec![Op::Clear, Op::Sign(3), Op::Reparse], vec![Op::Reparse, Op::Clear], vec![Op::Sign(3), Op::Clear]] {
+            jobs.push((s, h));
         }
     }
     if ctx.tier.pick(false, true) {
